@@ -676,3 +676,133 @@ def parse_options_header(value: str | None) -> tuple[str, dict[str, str]]:
 """),
     ]},
 ]
+
+# ---------------------------------------------------------------------------------------------------------------------
+# round 3: the drain loop over iter(callable, sentinel) / tests against the NEED_DATA constant, other representations of the
+# field accumulator (bytearray, BytesIO) and of the result lists
+
+_IMPORT_NEED = "from .sansio.multipart import NeedData\n"
+_IMPORT_BOTH = "from .sansio.multipart import NEED_DATA\nfrom .sansio.multipart import NeedData\n"
+_DRAIN_HEAD = "            event = parser.next_event()\n            while not isinstance(event, (Epilogue, NeedData)):\n"
+_DRAIN_TAIL = "\n                event = parser.next_event()\n\n        return self.cls(fields), self.cls(files)\n"
+_RETURN = "        return self.cls(fields), self.cls(files)\n"
+_FIELD_BEGIN = "                    container = []\n                    _write = container.append\n"
+_WRITE = "                    _write(event.data)\n"
+_JOIN_HEAD = '                            value = b"".join(container).decode(\n'
+_CHUNK_LOOP = "    while True:\n        data = read(size)\n\n        if not data:\n            break\n\n        yield data\n\n    yield None\n"
+_BYTEARRAY_WRITE = "                    if isinstance(current_part, Field):\n                        container += event.data\n                    else:\n                        container.write(event.data)\n"
+_TAKEWHILE = "            for event in itertools.takewhile(\n                lambda ev: not isinstance(ev, %s), iter(parser.next_event, NEED_DATA)\n            ):\n"
+_DICT_OF_LISTS = [
+    (FP, "        fields = []\n        files = []\n", "        parts: dict[type, list[t.Any]] = {Field: [], File: []}\n"),
+    (FP, "fields.append((current_part.name, value))", "parts[Field].append((current_part.name, value))"),
+    (FP, "                            files.append(\n", "                            parts[File].append(\n"),
+]
+
+TWINS += [
+    {"name": "parse: for over iter(next_event, NEED_DATA), Epilogue ends the loop in the last arm", "edits": [
+        (FP, _IMPORT_NEED, _IMPORT_BOTH),
+        (FP, _DRAIN_HEAD, "            for event in iter(parser.next_event, NEED_DATA):\n"),
+        (FP, _DRAIN_TAIL, "                elif isinstance(event, Epilogue):\n                    break\n\n" + _RETURN),
+    ]},
+    {"name": "parse: drain loop compares with the NEED_DATA constant", "edits": [
+        (FP, _IMPORT_NEED, _IMPORT_BOTH),
+        (FP, _DRAIN_HEAD, "            event = parser.next_event()\n            while event != NEED_DATA and not isinstance(event, Epilogue):\n"),
+    ]},
+    {"name": "parse: terminal events by exact type in a set", "edits": [
+        (FP, _DRAIN_HEAD, "            event = parser.next_event()\n            while type(event) not in {Epilogue, NeedData}:\n"),
+    ]},
+    {"name": "parse: identity test against NEED_DATA in a while True loop", "edits": [
+        (FP, _IMPORT_NEED, _IMPORT_BOTH),
+        (FP, _DRAIN_HEAD, "            while True:\n                event = parser.next_event()\n                if event is NEED_DATA or isinstance(event, Epilogue):\n                    break\n"),
+        (FP, _DRAIN_TAIL, "\n" + _RETURN),
+    ]},
+    {"name": "parse: bytearray accumulator grown with +=", "edits": [
+        (FP, _FIELD_BEGIN, "                    container = bytearray()\n"),
+        (FP, _WRITE, _BYTEARRAY_WRITE),
+        (FP, _JOIN_HEAD, "                            value = bytes(container).decode(\n"),
+    ]},
+    {"name": "parse: field pieces written to a BytesIO and read back with getvalue", "edits": [
+        (FP, _FIELD_BEGIN, "                    container = BytesIO()\n                    _write = container.write\n"),
+        (FP, _JOIN_HEAD, "                            value = container.getvalue().decode(\n"),
+    ]},
+    {"name": "parse: results kept in a dict of lists keyed by the event class", "edits": _DICT_OF_LISTS + [
+        (FP, _RETURN, "        return self.cls(parts[Field]), self.cls(parts[File])\n"),
+    ]},
+    {"name": "parse: drained with takewhile over the sentinel iterator", "edits": [
+        (FP, "import typing as t\n", "import itertools\nimport typing as t\n"),
+        (FP, _IMPORT_NEED, _IMPORT_BOTH),
+        (FP, _DRAIN_HEAD, _TAKEWHILE % "Epilogue"),
+        (FP, _DRAIN_TAIL, "\n" + _RETURN),
+    ]},
+    {"name": "_chunk_iter: yield from iter(lambda, b'')", "edits": [
+        (FP, _CHUNK_LOOP, "    yield from iter(lambda: read(size), b\"\")\n    yield None\n"),
+    ]},
+]
+
+MUTANTS += [
+    {"name": "sentinel drain gives up after a finished part", "expect": "R2.1", "edits": [
+        (FP, _IMPORT_NEED, _IMPORT_BOTH),
+        (FP, _DRAIN_HEAD, "            for event in iter(parser.next_event, NEED_DATA):\n"),
+        (FP, _DRAIN_TAIL, "                if isinstance(event, Epilogue) or (isinstance(event, Data) and not event.more_data):\n                    break\n\n" + _RETURN),
+    ]},
+    {"name": "NEED_DATA comparison loop also stops at a File event", "expect": "R2.1", "edits": [
+        (FP, _IMPORT_NEED, _IMPORT_BOTH),
+        (FP, _DRAIN_HEAD, "            event = parser.next_event()\n            while event != NEED_DATA and not isinstance(event, (Epilogue, File)):\n"),
+    ]},
+    {"name": "exact-type set treats Data as terminal", "expect": "R2.1", "edits": [
+        (FP, _DRAIN_HEAD, "            event = parser.next_event()\n            while type(event) not in {Epilogue, NeedData, Data}:\n"),
+    ]},
+    {"name": "bytearray accumulator restarted by each chunk", "expect": "R2.1", "edits": [
+        (FP, _FIELD_BEGIN, "                    container = bytearray()\n"),
+        (FP, _WRITE, _BYTEARRAY_WRITE.replace("container += event.data", "container = bytearray(event.data)")),
+        (FP, _JOIN_HEAD, "                            value = bytes(container).decode(\n"),
+    ]},
+    {"name": "BytesIO field container read without rewinding", "expect": "R2.1", "edits": [
+        (FP, _FIELD_BEGIN, "                    container = BytesIO()\n                    _write = container.write\n"),
+        (FP, _JOIN_HEAD, "                            value = container.read().decode(\n"),
+    ]},
+    {"name": "dict of lists: the field list is returned twice", "expect": "R2.1", "edits": _DICT_OF_LISTS + [
+        (FP, _RETURN, "        return self.cls(parts[Field]), self.cls(parts[Field])\n"),
+    ]},
+    {"name": "takewhile predicate also stops at a File event", "expect": "R2.1", "edits": [
+        (FP, "import typing as t\n", "import itertools\nimport typing as t\n"),
+        (FP, _IMPORT_NEED, _IMPORT_BOTH),
+        (FP, _DRAIN_HEAD, _TAKEWHILE % "(Epilogue, File)"),
+        (FP, _DRAIN_TAIL, "\n" + _RETURN),
+    ]},
+]
+
+_IMPORT_T = "import typing as t\n"
+_JOIN_FULL = 'value = b"".join(container).decode(\n                                self.get_part_charset(current_part.headers), "replace"\n                            )'
+_DEQUE_BEGIN = "                    container = collections.deque()\n                    _write = container.%s\n"
+
+TWINS += [
+    {"name": "parse: field pieces collected in a deque", "edits": [
+        (FP, _IMPORT_T, "import collections\n" + _IMPORT_T),
+        (FP, _FIELD_BEGIN, _DEQUE_BEGIN % "append"),
+    ]},
+    {"name": "parse: field pieces folded with functools.reduce", "edits": [
+        (FP, _IMPORT_T, "import functools\nimport operator\n" + _IMPORT_T),
+        (FP, _JOIN_HEAD, '                            value = functools.reduce(operator.add, container, b"").decode(\n'),
+    ]},
+    {"name": "parse: field value decoded through codecs.decode, payload through a memoryview", "edits": [
+        (FP, _IMPORT_T, "import codecs\n" + _IMPORT_T),
+        (FP, _JOIN_FULL, 'value = codecs.decode(b"".join(container), self.get_part_charset(current_part.headers), "replace")'),
+        (FP, _WRITE, "                    _write(bytes(memoryview(event.data)))\n"),
+    ]},
+]
+
+MUTANTS += [
+    {"name": "deque filled from the left", "expect": "R2.1", "edits": [
+        (FP, _IMPORT_T, "import collections\n" + _IMPORT_T),
+        (FP, _FIELD_BEGIN, _DEQUE_BEGIN % "appendleft"),
+    ]},
+    {"name": "reduce keeps only the last piece", "expect": "R2.1", "edits": [
+        (FP, _IMPORT_T, "import functools\n" + _IMPORT_T),
+        (FP, _JOIN_HEAD, '                            value = functools.reduce(lambda done, piece: piece, container, b"").decode(\n'),
+    ]},
+    {"name": "codecs.decode of the stripped value", "expect": "R2.1", "edits": [
+        (FP, _IMPORT_T, "import codecs\n" + _IMPORT_T),
+        (FP, _JOIN_FULL, 'value = codecs.decode(b"".join(container).strip(), self.get_part_charset(current_part.headers), "replace")'),
+    ]},
+]
